@@ -63,7 +63,13 @@ class AppRun:
         netpatch = seams.Patch().apply(seams.socket_pairs(tnet.FakeSocketModule(net)) + seams.ssl_pairs(tnet.FakeSSLModule(net)))
         try:
             kw = {name: self.cb(name) for name in spec["callbacks"]}
-            app = lib.websocket.WebSocketApp(spec["url"], **kw)
+            if spec.get("assign_after"):
+                # the application installs its handlers as attributes of the object after constructing it
+                app = lib.websocket.WebSocketApp(spec["url"], **spec.get("app_kwargs", {}))
+                for name, f in kw.items():
+                    setattr(app, name, f)
+            else:
+                app = lib.websocket.WebSocketApp(spec["url"], **dict(spec.get("app_kwargs", {}), **kw))
             self.app = app
             runs = 2 if spec.get("second_run") else 1
 
